@@ -17,8 +17,11 @@ ASSUMPTIONS = ['one writer per directory (RollLog docstring); other processes on
                'a log file name is identified with the integer microsecond value it starts with; one prefix/suffix/time zone per directory',
                'bin mode has no record delimiters: a record is one written chunk, reads return concatenations of whole chunks, seeks only go to told offsets',
                'the log directory itself is not removed; clock later than every existing file (constructor time-traveller check not modelled)',
-               'C13_read_step/C13_reader_refines: file names increase in creation order; the fix guarantees this unless the newest file is deleted externally '
-               'AND the writer is restarted AND the next timestamp is not later than the deleted name']
+               'C13_reader_refines_partial / C13_reader_invariant: runs from the empty directory without a writer restart, explicit timestamps > 0 '
+               '(a restarted writer may reuse or go below an externally deleted newest name: pending_fixes/C13-name-regression.finding.md); '
+               'the theorem is per read (nothing on disk passed over, whole records at the handle offset), its composition into a whole-history '
+               'statement and no-duplicates across a re-basing refresh are covered by the oracle only',
+               'C13_no_overwrite, C13_append_only, C13_budget, C13_newest_kept: any op sequence incl. writer restarts, from any directory whose file names are distinct and in creation order']
 TRUSTED = ['framing of the four modes (records_of/raw_records in harness/ofverif/rolllog_common.py) maps payloads to the model\'s (id, size) records',
            'POSIX unlink semantics (open handles keep the inode) as modelled by File.linked']
 
